@@ -454,8 +454,10 @@ theorem quiet_schedule (s : State) (b j a i : Nat) : Quiet s (schedule s b j a i
   split
   · exact Quiet.refl s
   · split_ifs
-    · exact (quiet_addAttempt s b j _ _ _).trans (quiet_updateJobs _ _ _ (jobFrame_setStateAttempt _ _))
-    · exact quiet_addAttempt s b j _ _ _
+    all_goals first
+      | exact Quiet.refl s
+      | exact (quiet_addAttempt s b j _ _ _).trans (quiet_updateJobs _ _ _ (jobFrame_setStateAttempt _ _))
+      | exact quiet_addAttempt s b j _ _ _
 
 theorem quiet_startPrep (s : State) (b j a i : Nat) (ts : Int) (d : Nat) (job : Job) : Quiet s (startPrep s b j a i ts d job) :=
   (quiet_addAttempt s b j _ _ _).trans (quiet_updateAttempts _ d _ _)
@@ -466,8 +468,10 @@ theorem quiet_startLike (s : State) (b j a i : Nat) (ts : Int) (d : Nat) (need :
   split
   · exact Quiet.refl s
   · split_ifs
-    · exact (quiet_startPrep s b j a i ts d _).trans (quiet_updateJobs _ _ _ (jobFrame_setStateAttempt _ _))
-    · exact quiet_startPrep s b j a i ts d _
+    all_goals first
+      | exact Quiet.refl s
+      | exact (quiet_startPrep s b j a i ts d _).trans (quiet_updateJobs _ _ _ (jobFrame_setStateAttempt _ _))
+      | exact quiet_startPrep s b j a i ts d _
 
 theorem quiet_freeAdd (s : State) (i : Option Nat) (d : Int) : Quiet s (freeAdd s i d) := Quiet.of_eq rfl rfl rfl
 
@@ -495,11 +499,11 @@ theorem quiet_complete (s : State) (b j : Nat) (att inst : Option Nat) (ns : JSt
   split
   · exact Quiet.refl s
   · split_ifs
-    · exact quiet_completePrep s b j att inst st e r d _
-    · exact ((quiet_completePrep s b j att inst st e r d _).trans (quiet_completeJob _ b j att ns _)).trans
-        (quiet_updateJobs _ _ _ (jobFrame_childUpdate ns))
-    · exact quiet_completePrep s b j att inst st e r d _
-    · exact quiet_completePrep s b j att inst st e r d _
+    all_goals first
+      | exact Quiet.refl s
+      | exact quiet_completePrep s b j att inst st e r d _
+      | exact ((quiet_completePrep s b j att inst st e r d _).trans (quiet_completeJob _ b j att ns _)).trans
+          (quiet_updateJobs _ _ _ (jobFrame_childUpdate ns))
 
 theorem quiet_unschedulePrep (s : State) (b j a i : Nat) (e : Int) (r : String) (d : Nat) (job : Job) :
     Quiet s (unschedulePrep s b j a i e r d job) := by
@@ -515,8 +519,10 @@ theorem quiet_unschedule (s : State) (b j a i : Nat) (e : Int) (r : String) (d :
   split
   · exact Quiet.refl s
   · split_ifs
-    · exact (quiet_unschedulePrep s b j a i e r d _).trans (quiet_updateJobs _ _ _ (jobFrame_setStateAttempt _ _))
-    · exact quiet_unschedulePrep s b j a i e r d _
+    all_goals first
+      | exact Quiet.refl s
+      | exact (quiet_unschedulePrep s b j a i e r d _).trans (quiet_updateJobs _ _ _ (jobFrame_setStateAttempt _ _))
+      | exact quiet_unschedulePrep s b j a i e r d _
 
 theorem quiet_addResources (s : State) (b j a : Nat) (res : List (Nat × Int)) (d : Nat) :
     Quiet s (addResources s b j a res d).1 := by
@@ -1085,8 +1091,10 @@ theorem billingDeltas_noStaging (s : State) (d b j a : Nat) (diff : Int) :
 
 theorem calm_updateAttempts (s : State) (d : Nat) (p : Attempt → Bool)
     (f : Generated.AttemptsTrigger.Row → Generated.AttemptsTrigger.Row) : Calm s (updateAttempts s d p f) := by
-  refine ⟨rfl, stagingLog_addMany (ds := (s.attempts.filter p).flatMap fun a =>
-      billingDeltas s d a.batch a.job a.id (billed (Generated.AttemptsTrigger.attemptsBeforeUpdate a.row (f a.row)) - billed a.row)) rfl ?_⟩
+  refine ⟨rfl, ?_⟩
+  unfold updateAttempts
+  dsimp only
+  apply stagingLog_addMany rfl
   intro e he
   rw [List.mem_flatMap] at he
   obtain ⟨a, -, ha⟩ := he
@@ -1107,5 +1115,139 @@ theorem cancelDeltas_noStaging (s : State) (b g : Nat) : ∀ e ∈ cancelDeltas 
 
 theorem calm_cancelApply (s : State) (b g : Nat) : Calm s (cancelApply s b g) :=
   ⟨rfl, stagingLog_addMany (ds := cancelDeltas s b g) rfl (cancelDeltas_noStaging s b g)⟩
+
+theorem calm_createUpdate (s : State) (b t nj ng u : Nat) : Calm s (createUpdate s b t nj ng u).1 := by
+  rcases createUpdate_cases s b t nj ng u with ⟨o, e, _⟩ | ⟨last, e, _⟩ <;> rw [e] <;> exact Calm.of_eq rfl rfl
+
+theorem calm_cancelGroup (s : State) (b g : Nat) : Calm s (cancelGroup s b g).1 := by
+  unfold cancelGroup; split_ifs
+  · exact Calm.refl s
+  · exact Calm.refl s
+  · exact calm_cancelApply s b g
+
+theorem calm_deleteBatch (s : State) (b : Nat) : Calm s (deleteBatch s b).1 := by
+  unfold deleteBatch; split
+  · exact Calm.refl s
+  · split_ifs
+    · exact Calm.refl s
+    · exact Calm.of_eq rfl rfl
+    · exact (calm_cancelApply s b 0).trans (Calm.of_eq rfl rfl)
+
+theorem calm_newInstance (s : State) (n : Nat) (c : Int) (p : Bool) : Calm s (newInstance s n c p).1 := by
+  unfold newInstance; split_ifs <;> exact Calm.of_eq rfl rfl
+
+theorem calm_activate (s : State) (n : Nat) : Calm s (activate s n).1 := by
+  unfold activate; model_split <;> exact Calm.of_eq rfl rfl
+
+theorem calm_markDeleted (s : State) (n : Nat) : Calm s (markDeleted s n).1 := by
+  unfold markDeleted; model_split <;> exact Calm.of_eq rfl rfl
+
+theorem calm_deactivate (s : State) (n : Nat) (r : String) (ts : Int) (d : Nat) : Calm s (deactivate s n r ts d).1 := by
+  unfold deactivate
+  split
+  · exact Calm.refl s
+  · split_ifs
+    · exact Calm.refl s
+    · unfold deactivateApply
+      exact ((calm_updateAttempts s d _ _).trans (calm_updateJobs _ _ _)).trans (Calm.of_eq rfl rfl)
+
+theorem calm_schedule (s : State) (b j a i : Nat) : Calm s (schedule s b j a i).1 := by
+  unfold schedule
+  split
+  · exact Calm.refl s
+  · split_ifs
+    all_goals first
+      | exact Calm.refl s
+      | exact (calm_addAttempt s b j _ _ _).trans (calm_updateJobs _ _ _)
+      | exact calm_addAttempt s b j _ _ _
+
+theorem calm_startPrep (s : State) (b j a i : Nat) (ts : Int) (d : Nat) (job : Job) : Calm s (startPrep s b j a i ts d job) :=
+  (calm_addAttempt s b j _ _ _).trans (calm_updateAttempts _ d _ _)
+
+theorem calm_startLike (s : State) (b j a i : Nat) (ts : Int) (d : Nat) (need : IState) (ns : JState) :
+    Calm s (startLike s b j a i ts d need ns).1 := by
+  unfold startLike
+  split
+  · exact Calm.refl s
+  · split_ifs
+    all_goals first
+      | exact Calm.refl s
+      | exact (calm_startPrep s b j a i ts d _).trans (calm_updateJobs _ _ _)
+      | exact calm_startPrep s b j a i ts d _
+
+theorem calm_completePrep (s : State) (b j : Nat) (att inst : Option Nat) (st e : Option Int) (r : String) (d : Nat)
+    (job : Job) : Calm s (completePrep s b j att inst st e r d job) := by
+  unfold completePrep
+  dsimp only
+  have h1 := calm_addAttempt s b j att inst job.cores
+  cases att with
+  | none => dsimp only; split_ifs
+            · exact h1.trans (calm_freeAdd _ _ _)
+            · exact h1
+  | some a => dsimp only; split_ifs
+              · exact (h1.trans (calm_updateAttempts _ d _ _)).trans (calm_freeAdd _ _ _)
+              · exact h1.trans (calm_updateAttempts _ d _ _)
+
+theorem calm_unschedulePrep (s : State) (b j a i : Nat) (e : Int) (r : String) (d : Nat) (job : Job) :
+    Calm s (unschedulePrep s b j a i e r d job) := by
+  unfold unschedulePrep
+  dsimp only
+  split_ifs
+  · exact (calm_updateAttempts s d _ _).trans (calm_freeAdd _ _ _)
+  · exact calm_updateAttempts s d _ _
+
+theorem calm_unschedule (s : State) (b j a i : Nat) (e : Int) (r : String) (d : Nat) :
+    Calm s (unschedule s b j a i e r d).1 := by
+  unfold unschedule
+  split
+  · exact Calm.refl s
+  · split_ifs
+    all_goals first
+      | exact Calm.refl s
+      | exact (calm_unschedulePrep s b j a i e r d _).trans (calm_updateJobs _ _ _)
+      | exact calm_unschedulePrep s b j a i e r d _
+
+theorem calm_addResources (s : State) (b j a : Nat) (res : List (Nat × Int)) (d : Nat) :
+    Calm s (addResources s b j a res d).1 := by
+  unfold addResources
+  split_ifs
+  · exact Calm.refl s
+  · dsimp only
+    refine ⟨rfl, stagingLog_addMany rfl ?_⟩
+    intro e he
+    split_ifs at he
+    · simp at he
+    · simp only [List.mem_flatMap, List.mem_append, List.mem_cons, List.not_mem_nil, or_false, List.mem_map] at he
+      obtain ⟨r, -, h | ⟨g, -, h⟩⟩ := he
+      · rcases h with h | h | h <;> rw [h] <;> rfl
+      · rw [← h]; rfl
+
+theorem calm_cleanupCancellable (s : State) : Calm s (cleanupCancellable s).1 := by
+  refine ⟨rfl, ?_⟩
+  unfold cleanupCancellable stagingLog
+  dsimp only
+  rw [List.filter_filter]
+  apply List.filter_congr
+  intro e _
+  cases h : e.1 <;> simp [isSJ]
+
+theorem staging_completeJob (s : State) (b j : Nat) (att : Option Nat) (ns : JState) (job : Job) :
+    stagingLog (completeJob s b j att ns job) = stagingLog s := by
+  unfold completeJob
+  exact (calm_updateJobs s _ _).staging
+
+/-- the staging `n_jobs` cells change only through `insertJobs`, `cleanupStaging` and `compact` -/
+theorem staging_complete (s : State) (b j : Nat) (att inst : Option Nat) (ns : JState) (st e : Option Int) (r : String)
+    (d : Nat) : stagingLog (complete s b j att inst ns st e r d).1 = stagingLog s := by
+  unfold complete
+  split
+  · rfl
+  · rename_i job _
+    split_ifs
+    all_goals first
+      | rfl
+      | exact (calm_completePrep s b j att inst st e r d job).staging
+      | exact ((calm_updateJobs _ _ _).staging.trans (staging_completeJob _ b j att ns job)).trans
+          (calm_completePrep s b j att inst st e r d job).staging
 
 end HailVerif.BatchDB.Submission
